@@ -95,8 +95,8 @@ def run(ix, R):
         ta = atom_of(fl, s.target)
         mask = spec(fl, 'model.pressureProfile >= self._cloud_pressure', pe)
         why = []
-        if not fl.tab.equal(ta.args[1], mask):
-            why.append('mask is %s' % fmt(fl, ta.args[1]))
+        if not isinstance(ta.args[1], RF) or not fl.tab.equal(ta.args[1], mask):
+            why.append('rows selected by %s, not by the boolean mask pressureProfile >= cloud pressure' % fmt(fl, ta.args[1]))
         if fmt(fl, s.value) != 'inf':
             why.append('masked rows set to %s' % fmt(fl, s.value))
         z = unalloc(fl, ta.args[0])
@@ -253,6 +253,7 @@ def run(ix, R):
 
 
 MUTANTS = [
+    ('seed-c19-a', SC, "contrib[cloud_filtr, :] = np.inf", "cloud_top = np.argmin(cloud_filtr)\n        contrib[:cloud_top, :] = np.inf", '1.mask'),
     ('cloud-lt', SC, 'cloud_filtr = model.pressureProfile >= self._cloud_pressure', 'cloud_filtr = model.pressureProfile <= self._cloud_pressure', '1.mask'),
     ('cloud-finite', SC, 'contrib[cloud_filtr, :] = np.inf', 'contrib[cloud_filtr, :] = 1.0', '1.mask'),
     ('cloud-row', SC, 'tau[layer] += self.sigma_xsec[layer, :]', 'tau[layer] += self.sigma_xsec[layer - 1, :]', '1.add'),
